@@ -69,12 +69,7 @@ func (r Float64) MAX(a, b Float64) Scalar {
 }
 /* -------------------------------------------------------------------------- */
 func (c Float64) ABS(a Float64) Scalar {
-  if c.Sign() == -1 {
-    c.NEG(a)
-  } else {
-    c.SET(a)
-  }
-  return c
+  return c.Abs(a)
 }
 /* -------------------------------------------------------------------------- */
 func (c Float64) NEG(a Float64) Float64 {
